@@ -97,7 +97,7 @@ Definition check_case (k : case) : list (N * N) :=
   let a0 := agree (c_cfg k) (st0, []) (c_obs0 k) in
   (if a0 =? 0 then run_model (c_cfg k) st0 (c_steps k) 0 else [(1, 7)]) ++
   map (fun v => (2, fst v * 8 + snd v))
-      (violations (c_obs0 k) (map (fun c => {| s_ev := c_ev c; s_obs := c_obs c |}) (c_steps k))).
+      (violations (c_obs0 k) (map (fun c => {| s_ev := c_ev c; s_hi := c_hi c; s_obs := c_obs c |}) (c_steps k))).
 
 (* ------------------------------------------------------------- tai64n K *)
 Record tcase := { tc_s : N; tc_ns : N; tc_bytes : list N }.
